@@ -460,7 +460,29 @@ def gBuildOp (ts : Array String) : Option String := do
   let (prior, o) ← Sx.parseTokens ts 1
   let op ← ts[o]?
   let a := o + 1
-  if op == "transform" || op == "cpattr" || op == "tsel" || op == "proposal" then pure "unsupported" else
+  let resList {α β : Type} (f : α → β) (g : β → Sx) (r : Res (List α)) : String :=
+    match r with
+    | .ok l => "ok " ++ (Sx.list (l.map (fun x => g (f x)))).toStr
+    | .err => "err"
+    | .fault => "panic"
+  if op == "transform" then
+    let l ← rdTransforms prior
+    pure (resList GenAbs.absTransform sxTransform
+      (TransformContainer.BuildTransform (l.map GenAbs.repTransform) (← u8At ts a) (← u16At ts (a+1)) (← optU16At ts (a+2)) (← optU16At ts (a+3)) (← bytesAt ts (a+4))))
+  else if op == "cpattr" then
+    let l ← (← prior.items?).mapM rdCPAttr
+    pure (resList GenAbs.absCPAttr sxCPAttr
+      (ConfigurationAttributeContainer.BuildConfigurationAttribute (l.map GenAbs.repCPAttr) (← u16At ts a) (← bytesAt ts (a+1))))
+  else if op == "tsel" then
+    let l ← (← prior.items?).mapM rdTSel
+    pure (resList GenAbs.absTSel sxTSel
+      (IndividualTrafficSelectorContainer.BuildIndividualTrafficSelector (l.map GenAbs.repTSel) (← u8At ts a) (← u8At ts (a+1)) (← u16At ts (a+2)) (← u16At ts (a+3))
+        (← bytesAt ts (a+4)) (← bytesAt ts (a+5))))
+  else if op == "proposal" then
+    let l ← (← prior.items?).mapM rdProposal
+    pure (resList GenAbs.absProposal sxProposal
+      ((ProposalContainer.BuildProposal (l.map GenAbs.repProposal) (← u8At ts a) (← u8At ts (a+1)) (← bytesAt ts (a+2))).map (·.1)))
+  else
   let ps ← rdPayloads prior
   let c := ps.map GenAbs.repPayload
   let fin (r : Res (List IKEPayload)) : String := gResPayloads ps r
